@@ -15,7 +15,11 @@ func countTransactions(w http.ResponseWriter, r *http.Request) {
 	if err != nil {
 		return
 	}
-	rq.Builder = buildGetTransactionsQuery(r)
+	rq.Builder, err = buildGetTransactionsQuery(r)
+	if err != nil {
+		api.BadRequest(w, common.ErrValidation, err)
+		return
+	}
 
 	count, err := common.LedgerFromContext(r.Context()).CountTransactions(r.Context(), *rq)
 	if err != nil {
